@@ -8,7 +8,11 @@
 //!     the evaluated flags is recorded;
 //! (d) a `State` that is used again: consecutive runs (`Configuration::run`) of every template on ONE state with
 //!     different instances of the problem, each audited as in (b) against the objective function of its own
-//!     instance; component level: init + execute on one instance, then init + execute again for another one.
+//!     instance; component level: init + execute on one instance, then init + execute again for another one;
+//! (e) objective functions that tell apart what `==` identifies (`Steps`: sensitive to the sign of zero): every
+//!     evaluation path (PopulationEvaluator with Sequential / Parallel, `Evaluate::evaluate` itself, the firefly's
+//!     self-evaluation) and every copying / comparing component on populations with identical, `==`-equal and
+//!     near-duplicate members; solutions interned by bit pattern.
 use std::collections::BTreeSet;
 
 use hcommon::problems::{OneMax, Sphere, Tsp};
@@ -180,16 +184,28 @@ use mahf::problems::Sequential;
 use mahf::state::common::{Evaluations, Populations};
 use mahf::{Component, Random};
 
-/// Solutions of one case are interned (ids by `==` on the encoding, which is also what `Individual::eq`,
-/// `contains` and `position` use); the objective table `(f …)` is recomputed with `raw_f` per id.
+/// Solutions of one case are interned; the objective table `(f …)` is recomputed with `raw_f` per id. The interning
+/// key must never identify two solutions the objective function tells apart ("the value the objective function assigns
+/// to ITS solution" is looked up per id):
+/// * `Steps` (sign-sensitive): by IDENTITY, i.e. the canonical encoding `HProblem::enc` (IEEE bit patterns) — `==` on
+///   `Vec<f64>` is coarser (`0.0 == -0.0`);
+/// * Sphere / OneMax / Tsp: by `==` on the encoding (what `Individual::eq`, `contains` and `position` use, so that the
+///   model's member look-ups agree with the code's); their `raw_f` gives bit-identical values on `==`-equal solutions
+///   (for bit strings and permutations `==` is identity; the sphere only adds squares of differences).
 struct Intern<Q: HProblem> {
     sols: Vec<Q::Encoding>,
+    keys: Vec<String>,
+    by_bits: bool,
 }
 impl<Q: HProblem> Intern<Q> {
-    fn new() -> Self { Intern { sols: vec![] } }
+    fn new() -> Self { Intern { sols: vec![], keys: vec![], by_bits: std::any::TypeId::of::<Q>() == std::any::TypeId::of::<Steps>() } }
     fn id(&mut self, s: &Q::Encoding) -> usize {
-        if let Some(k) = self.sols.iter().position(|x| x == s) { return k; }
+        let key = Q::enc(s);
+        if !self.by_bits {
+            if let Some(k) = self.sols.iter().position(|x| x == s) { return k; }
+        } else if let Some(k) = self.keys.iter().position(|x| *x == key) { return k; }
         self.sols.push(s.clone());
+        self.keys.push(key);
         self.sols.len() - 1
     }
     fn ind(&mut self, i: &Individual<Q>) -> String {
@@ -220,6 +236,61 @@ fn snapshot<Q: HProblem>(state: &State<Q>, it: &mut Intern<Q>) -> String {
     let mut mols = vec![];
     if let Ok(cr) = state.try_borrow::<ChemicalReaction<Q>>() { for m in cr.iter() { mols.push(it.ind(&m.best)); } }
     tagged("snap", [tagged("stack", stack), tagged("best", best), tagged("arch", arch), tagged("pbest", pbest), tagged("gbest", gbest), tagged("mols", mols)])
+}
+
+// ------------------------------------------------------------------ an objective function that sees bit patterns
+/// `f(x) = sum_k 2^(k mod 8) * signum(x_k) + (x_k - shift)^2`: a step at the origin in every coordinate whose side is
+/// given by the SIGN BIT (`signum(0.0) = 1`, `signum(-0.0) = -1`). `==` on `Vec<f64>` identifies `0.0` and `-0.0`,
+/// this function does not: anything that treats `==`-equal solutions as "the same solution" (a cache of objective
+/// values keyed on `PartialEq`, a "nothing changed" fast path that compares with `==`) reports a value that does not
+/// belong to the solution. Same search space and parameters as `Sphere`.
+#[derive(Clone)]
+pub struct Steps {
+    pub dim: usize,
+    pub lo: f64,
+    pub hi: f64,
+    pub shift: f64,
+    pub probe: hcommon::problems::Probe,
+}
+impl Steps {
+    pub fn f(&self, x: &[f64]) -> f64 {
+        x.iter().enumerate().map(|(k, v)| (1u64 << (k % 8)) as f64 * v.signum() + (v - self.shift) * (v - self.shift)).sum()
+    }
+}
+impl mahf::Problem for Steps {
+    type Encoding = Vec<f64>;
+    type Objective = SingleObjective;
+    fn name(&self) -> &str { "steps" }
+}
+impl mahf::problems::VectorProblem for Steps {
+    type Element = f64;
+    fn dimension(&self) -> usize { self.dim }
+}
+impl mahf::problems::LimitedVectorProblem for Steps {
+    fn domain(&self) -> Vec<std::ops::Range<f64>> { vec![self.lo..self.hi; self.dim] }
+}
+impl mahf::problems::ObjectiveFunction for Steps {
+    fn objective(&self, s: &Vec<f64>) -> SingleObjective {
+        let v = self.f(s);
+        self.probe.record(v);
+        SingleObjective::try_from(v).unwrap_or(SingleObjective::try_from(f64::INFINITY).unwrap())
+    }
+}
+impl HProblem for Steps {
+    fn raw_f(&self, s: &Vec<f64>) -> f64 { self.f(s) }
+    fn probe(&self) -> &hcommon::problems::Probe { &self.probe }
+    fn enc(s: &Vec<f64>) -> String { list(s.iter().map(|v| fx(*v))) }
+    fn kind(&self) -> &'static str { "steps" }
+}
+/// The real-valued test problems (`(prob real|steps DIM LO HI SHIFT)`).
+trait RealP: HProblem<Encoding = Vec<f64>> + mahf::problems::LimitedVectorProblem<Element = f64> {
+    fn make(dim: usize, lo: f64, hi: f64, shift: f64) -> Self;
+}
+impl RealP for Sphere {
+    fn make(dim: usize, lo: f64, hi: f64, shift: f64) -> Self { Sphere::new(dim, lo, hi, shift) }
+}
+impl RealP for Steps {
+    fn make(dim: usize, lo: f64, hi: f64, shift: f64) -> Self { Steps { dim, lo, hi, shift, probe: hcommon::problems::Probe::new(true) } }
 }
 
 // ------------------------------------------------------------------ component level
@@ -258,8 +329,7 @@ fn make_generic<Q: HProblem>(name: &str, pr: &[f64]) -> Option<Box<dyn Component
         _ => return None,
     })
 }
-fn make_real(name: &str, pr: &[f64]) -> Option<Box<dyn Component<Sphere>>> {
-    type Q = Sphere;
+fn make_real<Q: RealP>(name: &str, pr: &[f64]) -> Option<Box<dyn Component<Q>>> {
     let both = |v: f64| v != 0.0;
     Some(match name {
         "Saturation" => boundary::Saturation::new(),
@@ -310,6 +380,25 @@ fn make_perm(name: &str, pr: &[f64]) -> Option<Box<dyn Component<Tsp>>> {
     })
 }
 
+/// How the evaluation is reached: `(evaluator seq|par)` = the evaluator the state holds (default `seq`);
+/// `(via direct)` = instead of executing the component, the evaluator's own `Evaluate::evaluate` is called on the top
+/// population (the entry point a user-written component has).
+#[derive(Default, Clone)]
+struct How {
+    par: bool,
+    direct: bool,
+}
+impl How {
+    fn parse(a: &[Sx]) -> How {
+        let find = |tag: &str| a.iter().find_map(|x| x.head().filter(|(t, _)| *t == tag).map(|(_, r)| r.to_vec()));
+        How {
+            par: find("evaluator").map(|e| e[0].atom() == Some("par")).unwrap_or(false),
+            direct: find("via").map(|e| e[0].atom() == Some("direct")).unwrap_or(false),
+        }
+    }
+    fn suffix(&self) -> String { format!("{}{}", if self.par { "@par" } else { "" }, if self.direct { "@direct" } else { "" }) }
+}
+
 /// Runs one component on a prepared state and reports `((res R) (f …) (before SNAP) (after SNAP))`.
 /// `pops` are listed top first, each member with its evaluated flag. `pre = (component, depth)`: before the
 /// `before` snapshot the top `depth` populations are set aside, the setup component is initialised and
@@ -323,12 +412,24 @@ fn make_perm(name: &str, pr: &[f64]) -> Option<Box<dyn Component<Tsp>>> {
 fn exec<Q: HProblem>(
     problem: &Q, comp: Box<dyn Component<Q>>, pops: Vec<Vec<(bool, Q::Encoding)>>, seed: u64,
     pre: Option<(Box<dyn Component<Q>>, usize)>, prep: impl FnOnce(&mut State<Q>, &Q),
-    reinit: Option<(Q, Vec<Vec<(bool, Q::Encoding)>>)>,
+    reinit: Option<(Q, Vec<Vec<(bool, Q::Encoding)>>)>, how: &How,
 ) -> String {
     let mut state: State<Q> = State::new();
     state.insert(Populations::<Q>::new());
     state.insert(Random::new(seed));
-    state.insert_evaluator(Sequential::<Q>::new());
+    if how.par { state.insert_evaluator(mahf::problems::Parallel::<Q>::new()); } else { state.insert_evaluator(Sequential::<Q>::new()); }
+    // the component under test; with `(via direct)` the evaluator itself is the entry point
+    let run_comp_on = |problem: &Q, state: &mut State<Q>| -> Result<(), eyre::Report> {
+        if !how.direct { return comp.execute(problem, state); }
+        use mahf::problems::Evaluate;
+        let popped = state.populations_mut().try_pop();
+        if let Some(mut population) = popped {
+            if how.par { mahf::problems::Parallel::<Q>::new().evaluate(problem, state, &mut population); }
+            else { Sequential::<Q>::new().evaluate(problem, state, &mut population); }
+            state.populations_mut().push(population);
+        }
+        Ok(())
+    };
     for p in pops.into_iter().rev() {
         state.populations_mut().push(p.into_iter().map(|(ev, s)| if ev { evaluated(problem, s) } else { Individual::new_unevaluated(s) }).collect());
     }
@@ -350,7 +451,7 @@ fn exec<Q: HProblem>(
     let mut reinit_s = None;
     let mut problem = problem;
     if let Some((p2, pops2)) = &reinit {
-        if !matches!(catch(|| comp.execute(problem, &mut state)), Some(Ok(()))) { return "((res setup))".into(); }
+        if !matches!(catch(|| run_comp_on(problem, &mut state)), Some(Ok(()))) { return "((res setup))".into(); }
         // the caller's part of initialising the state for the next run
         state.insert(Populations::<Q>::new());
         for p in pops2.iter().rev() {
@@ -378,7 +479,7 @@ fn exec<Q: HProblem>(
         problem = p2;
     }
     let before = snapshot(&state, &mut it);
-    let res = match catch(|| comp.execute(problem, &mut state)) {
+    let res = match catch(|| run_comp_on(problem, &mut state)) {
         None => "panic",
         Some(Err(_)) => "err",
         Some(Ok(())) => "ok",
@@ -428,10 +529,31 @@ fn comp_case<Q: HProblem>(
         }
         _ => None,
     };
-    exec(problem, comp, pops, seed, pre, special, reinit)
+    exec(problem, comp, pops, seed, pre, special, reinit, &How::parse(a))
 }
 
-/// `(comp NAME (prob …) (seed N) (params x…) (pops POP+) [(vel V+)] [(pre NAME depth x…)])`;
+fn real_case<Q: RealP>(name: &str, a: &[Sx], prob: &[Sx], prob2: Option<Vec<Sx>>) -> String {
+    let find = |tag: &str| a.iter().find_map(|x| x.head().filter(|(t, _)| *t == tag).map(|(_, r)| r.to_vec()));
+    let problem = Q::make(prob[1].nat().unwrap() as usize, prob[2].float().unwrap(), prob[3].float().unwrap(), prob[4].float().unwrap());
+    let problem2 = prob2.map(|q| Q::make(q[1].nat().unwrap() as usize, q[2].float().unwrap(), q[3].float().unwrap(), q[4].float().unwrap()));
+    let vel: Vec<Vec<f64>> = find("vel").unwrap_or_default().iter().map(|s| s.items().unwrap().iter().map(|x| x.float().unwrap()).collect()).collect();
+    let is_pso = name == "ParticleVelocitiesUpdate";
+    let is_eh = name == "EventHorizon";
+    comp_case::<Q>(&problem, name, a, &|s| s.iter().map(|x| x.float().unwrap()).collect(), &make_real::<Q>, move |state, problem| {
+        if is_pso {
+            let top: Vec<Individual<Q>> = state.populations().current().to_vec();
+            state.insert(ParticleVelocities::<Global>::new(vel));
+            state.insert(BestParticle::<Q, Global>::new(top.first().cloned()));
+            state.insert(BestParticles::<Q, Global>::new(top));
+        } else if is_eh {
+            let bu = BestIndividualUpdate::new::<Q>();
+            let _ = bu.init(problem, state);
+            let _ = catch(|| bu.execute(problem, state));
+        }
+    }, problem2)
+}
+
+/// `(comp NAME (prob …) (seed N) (params x…) (pops POP+) [(vel V+)] [(pre NAME depth x…)] [(evaluator seq|par)] [(via direct)])`;
 /// a member of a POP is `(c…)` (evaluated with raw_f) or `(u c…)` (unevaluated).
 fn run_comp(a: &[Sx]) -> String {
     let name = a[0].atom().unwrap();
@@ -440,26 +562,8 @@ fn run_comp(a: &[Sx]) -> String {
     // `(reinit (prob …) (pops …))`: the instance of the second phase
     let prob2: Option<Vec<Sx>> = find("reinit").and_then(|r| r.iter().find_map(|x| x.head().filter(|(t, _)| *t == "prob").map(|(_, r)| r.to_vec())));
     match prob[0].atom().unwrap() {
-        "real" => {
-            type Q = Sphere;
-            let problem = Sphere::new(prob[1].nat().unwrap() as usize, prob[2].float().unwrap(), prob[3].float().unwrap(), prob[4].float().unwrap());
-            let problem2 = prob2.map(|q| Sphere::new(q[1].nat().unwrap() as usize, q[2].float().unwrap(), q[3].float().unwrap(), q[4].float().unwrap()));
-            let vel: Vec<Vec<f64>> = find("vel").unwrap_or_default().iter().map(|s| s.items().unwrap().iter().map(|x| x.float().unwrap()).collect()).collect();
-            let is_pso = name == "ParticleVelocitiesUpdate";
-            let is_eh = name == "EventHorizon";
-            comp_case::<Q>(&problem, name, a, &|s| s.iter().map(|x| x.float().unwrap()).collect(), &make_real, move |state, problem| {
-                if is_pso {
-                    let top: Vec<Individual<Q>> = state.populations().current().to_vec();
-                    state.insert(ParticleVelocities::<Global>::new(vel));
-                    state.insert(BestParticle::<Q, Global>::new(top.first().cloned()));
-                    state.insert(BestParticles::<Q, Global>::new(top));
-                } else if is_eh {
-                    let bu = BestIndividualUpdate::new::<Q>();
-                    let _ = bu.init(problem, state);
-                    let _ = catch(|| bu.execute(problem, state));
-                }
-            }, problem2)
-        }
+        "real" => real_case::<Sphere>(name, a, &prob, prob2),
+        "steps" => real_case::<Steps>(name, a, &prob, prob2),
         "binary" => {
             let problem = OneMax::new(prob[1].nat().unwrap() as usize);
             let problem2 = prob2.map(|q| OneMax::new(q[1].nat().unwrap() as usize));
@@ -792,6 +896,137 @@ fn gen_comp(r: &mut Sm, thorough: bool, emit: &mut dyn FnMut(String)) {
     }
 }
 
+/// Populations around the SIGN OF ZERO: coordinates are often `0.0` / `-0.0`, and a member is, with probability 5/8, made
+/// from an earlier one: a bit-identical copy of its predecessor or of any earlier member, a copy with signs of zero
+/// coordinates flipped (`==`-equal, not identical) of its predecessor or of any earlier member, or a near-duplicate
+/// (one coordinate moved by one ulp). `evmode`: 0 all unevaluated (what a variation leaves), 1 mixed, 2 all evaluated.
+fn zero_pop(r: &mut Sm, n: usize, dim: usize, evmode: u64) -> Vec<(Vec<f64>, bool)> {
+    let mut p: Vec<(Vec<f64>, bool)> = vec![];
+    let flip = |r: &mut Sm, s: &Vec<f64>| -> Vec<f64> {
+        let zeros: Vec<usize> = (0..s.len()).filter(|k| s[*k] == 0.0).collect();
+        let mut t = s.clone();
+        if zeros.is_empty() { return t; }
+        let forced = zeros[r.below(zeros.len() as u64) as usize];
+        for k in zeros { if k == forced || r.chance(1, 2) { t[k] = -t[k]; } }
+        t
+    };
+    for k in 0..n {
+        let fresh: Vec<f64> = (0..dim).map(|_| match r.below(8) {
+            0..=2 => 0.0,
+            3 => -0.0,
+            4 => if r.chance(1, 2) { 5e-324 } else { -5e-324 },
+            _ => (r.below(15) as f64 - 7.0) / 8.0,
+        }).collect();
+        let s = if k == 0 { fresh } else {
+            let any = r.below(k as u64) as usize;
+            match r.below(8) {
+                0 => p[k - 1].0.clone(),
+                1 | 2 => flip(r, &p[k - 1].0),
+                3 => flip(r, &p[any].0),
+                4 => p[any].0.clone(),
+                5 => { let mut t = p[k - 1].0.clone(); let c = r.below(dim as u64) as usize; t[c] = f64::from_bits(t[c].to_bits() + 1); t }
+                _ => fresh,
+            }
+        };
+        let ev = match evmode { 0 => false, 1 => r.chance(1, 2), _ => true };
+        p.push((s, ev));
+    }
+    p
+}
+
+/// Component cases whose objective function tells solutions apart that `==` identifies (`(prob steps …)`; the same
+/// inputs also on the sphere): every path that evaluates (`PopulationEvaluator` with the Sequential and the Parallel
+/// evaluator, the evaluators' own `evaluate` on a population, the firefly's self-evaluation), then everything that
+/// copies / compares / keeps individuals, on populations with adjacent and non-adjacent duplicates, `==`-equal
+/// non-identical members and near-duplicates.
+fn gen_zeros(r: &mut Sm, thorough: bool, emit: &mut dyn FnMut(String)) {
+    let hows = ["", " (evaluator par)", " (via direct)", " (evaluator par) (via direct)"];
+    let real_comps: [(&str, Vec<f64>, usize); 14] = [
+        ("Saturation", vec![], 1), ("Toroidal", vec![], 1), ("Mirror", vec![], 1), ("CompleteOneTailedNormalCorrection", vec![], 1),
+        ("NormalMutation", vec![0.1, 0.0], 1), ("PartialRandomSpread", vec![0.0], 1), ("UniformMutation", vec![0.0, 1.0], 1),
+        ("BlackHoleParticlesUpdate", vec![], 1), ("EventHorizon", vec![], 1), ("DEBinomialCrossover", vec![0.5], 2),
+        ("ArithmeticCrossover", vec![0.0, 0.0], 1), ("UniformCrossover", vec![0.5, 1.0], 1), ("UniformCrossover", vec![0.0, 0.0], 1),
+        ("DEMutation", vec![1.0, 0.5], 1),
+    ];
+    for _ in 0..(if thorough { 8 } else { 2 }) {
+        for kind in ["steps", "real"] {
+            for size in [2usize, 3, 5, 8] {
+                for evmode in 0..3u64 {
+                    let dim = 1 + r.below(3) as usize;
+                    let shift = *r.pick(&[0.0, 0.25]);
+                    let hdr = format!("(prob {kind} {dim} {} {} {}) (seed {})", fx(-1.0), fx(1.0), fx(shift), r.below(1000));
+                    let p0 = zero_pop(r, size, dim, evmode);
+                    let n1 = 1 + r.below(4) as usize;
+                    let p1 = zero_pop(r, n1, dim, evmode);
+                    let one = tagged("pops", [real_pop_s(&p0)]);
+                    let three = tagged("pops", [real_pop_s(&p0), real_pop_s(&p1), real_pop_s(&zero_pop(r, 2, dim, 1))]);
+                    for how in hows {
+                        emit(format!("(comp PopulationEvaluator {hdr} (params) {one}{how})"));
+                        emit(format!("(comp PopulationEvaluator {hdr} (params) {three}{how})"));
+                    }
+                    // the same solutions for another instance of the problem, evaluated by the evaluator the state already holds
+                    let prob2 = format!("(prob {kind} {dim} {} {} {})", fx(-1.0), fx(1.0), fx(shift + 0.5));
+                    for how in &hows[..2] {
+                        emit(format!("(comp PopulationEvaluator {hdr} (params) {one} (reinit {prob2} {}){how})", tagged("pops", [real_pop_s(&p0)])));
+                    }
+                    if evmode != 2 { continue; }
+                    // everything below reads objective values: evaluated populations
+                    let n1e = if r.chance(1, 2) { size } else { 1 + r.below(4) as usize };
+                    let p1e = zero_pop(r, n1e, dim, 2);
+                    // a second population that shares members (identical or `==`-equal) with the first
+                    let mut p1s = p1e.clone();
+                    for k in 0..p1s.len() { if r.chance(1, 2) { p1s[k] = p0[r.below(p0.len() as u64) as usize].clone(); if r.chance(1, 2) { p1s[k].0 = p1s[k].0.iter().map(|v| if *v == 0.0 { -*v } else { *v }).collect(); } } }
+                    let two = tagged("pops", [real_pop_s(&p0), real_pop_s(&p1s)]);
+                    for (alpha, beta, gamma) in [(0.0, 0.0, 0.0), (0.0, 0.5, 1.0), (0.25, 1.0, 0.01)] {
+                        for how in &hows[..2] {
+                            emit(format!("(comp FireflyPositionsUpdate {hdr} (params {}) {two}{how})", pstr(&[alpha, beta, gamma])));
+                        }
+                    }
+                    // the firefly's self-evaluation after a move that leaves the position `==` but not identical: with
+                    // alpha = 0 and beta = 0 every move adds a zero (`-0.0 + 0.0 = 0.0`), with beta = 1, gamma = 0 the
+                    // firefly lands exactly on the brighter one (`==`-equal coordinates get its sign)
+                    for _ in 0..3 {
+                        let d2 = 2 + r.below(2) as usize;
+                        let n2 = 2 + r.below(4) as usize;
+                        let swarm = zero_pop(r, n2, d2, 2);
+                        let (alpha, beta, gamma) = *r.pick(&[(0.0, 0.0, 0.0), (0.0, 0.0, 1.0), (0.0, 1.0, 0.0), (0.0, 0.5, 1.0)]);
+                        let how = hows[r.below(2) as usize];
+                        emit(format!("(comp FireflyPositionsUpdate (prob {kind} {d2} {} {} {}) (seed {}) (params {}) (pops {}){how})", fx(-1.0), fx(1.0), fx(shift),
+                            r.below(1000), pstr(&[alpha, beta, gamma]), real_pop_s(&swarm)));
+                    }
+                    emit(format!("(comp BestIndividualUpdate {hdr} (params) {one})"));
+                    emit(format!("(comp BestIndividualUpdate {hdr} (params) {two} (pre BestIndividualUpdate 1))"));
+                    emit(format!("(comp DuplicatePopulation {hdr} (params) {two})"));
+                    for (name, params) in [("All", vec![]), ("CloneSingle", vec![3.0]), ("FullyRandom", vec![4.0]), ("RandomWithoutRepetition", vec![2.0]),
+                                           ("Tournament", vec![3.0, 2.0]), ("LinearRank", vec![3.0]), ("RouletteWheel", vec![3.0, 1.0]),
+                                           ("DiscardOffspring", vec![]), ("Merge", vec![]), ("MuPlusLambda", vec![3.0]), ("Generational", vec![3.0]),
+                                           ("RandomReplacement", vec![2.0]), ("KeepBetterAtIndex", vec![])] {
+                        emit(format!("(comp {name} {hdr} (params {}) {two})", pstr(&params)));
+                    }
+                    for k in [1.0, 3.0] {
+                        emit(format!("(comp ElitistArchiveUpdate {hdr} (params {}) {one})", fx(k)));
+                        emit(format!("(comp ElitistArchiveUpdate {hdr} (params {}) {two} (pre ElitistArchiveUpdate 1 {}))", fx(k), fx(k)));
+                        emit(format!("(comp ElitistArchiveIntoPopulation {hdr} (params) {two} (pre ElitistArchiveUpdate 1 {}))", fx(k)));
+                    }
+                    emit(format!("(comp PersonalBestParticlesInit {hdr} (params) {one})"));
+                    emit(format!("(comp PersonalBestParticlesUpdate {hdr} (params) {two} (pre PersonalBestParticlesInit 1))"));
+                    emit(format!("(comp GlobalBestParticleUpdate {hdr} (params) {one})"));
+                    emit(format!("(comp GlobalBestParticleUpdate {hdr} (params) {two} (pre GlobalBestParticleUpdate 1))"));
+                    emit(format!("(comp ChemicalReactionInit {hdr} (params {}) {one})", pstr(&[1.0, 0.0])));
+                    // solution-modifying components at rates / positions where "nothing changed" is likely
+                    for (name, params, npops) in real_comps.iter() {
+                        let pops: Vec<String> = (0..*npops).map(|_| real_pop_s(&zero_pop(r, size, dim, 2))).collect();
+                        emit(format!("(comp {name} {hdr} (params {}) {})", pstr(params), tagged("pops", pops)));
+                    }
+                    // swarm positions around zero with zero / tiny velocities
+                    let vs: Vec<Vec<f64>> = (0..size).map(|_| (0..dim).map(|_| *r.pick(&[0.0, -0.0, 5e-324, -5e-324, 0.125])).collect()).collect();
+                    emit(format!("(comp ParticleVelocitiesUpdate {hdr} (params {}) (pops {}) {})", pstr(&[1.0, 0.0, 0.0, 1.0]), real_pop_s(&p0), tagged("vel", vs.iter().map(|s| fl(s)))));
+                }
+            }
+        }
+    }
+}
+
 // ------------------------------------------------------------------ run level
 const MAX_LEAVES: usize = 40;
 struct Audit {
@@ -1007,7 +1242,7 @@ fn run_case(input: &Sx) -> (String, String) {
         "run" => (a[0].atom().unwrap().to_string(), run_run(a)),
         "comp" => {
             let reinit = a.iter().any(|x| x.head().map(|(t, _)| t == "reinit").unwrap_or(false));
-            (format!("{}{}", a[0].atom().unwrap(), if reinit { "::reinit" } else { "" }), run_comp(a))
+            (format!("{}{}{}", a[0].atom().unwrap(), How::parse(a).suffix(), if reinit { "::reinit" } else { "" }), run_comp(a))
         }
         other => panic!("unknown case {other}"),
     }
@@ -1082,6 +1317,11 @@ fn main() {
     }
     // (c) component level: solution-modifying components on prepared, evaluated populations
     gen_comp(&mut r, a.thorough, &mut emit);
+    // (e) objective functions that tell `==`-equal solutions apart
+    {
+        let mut rz = Sm::new(a.seed ^ 0xC05_2E80);
+        gen_zeros(&mut rz, a.thorough, &mut emit);
+    }
     // (b) run level
     let seeds: u64 = if a.thorough { 8 } else { 2 };
     let iters = if a.thorough { 10 } else { 6 };
